@@ -87,6 +87,7 @@ class Engine:
         self.mutexes = {}
         self.inits_done = set()
         self.narrows = 0
+        self.kills = 0            # events that end a path other than by returning (panic, dead path, loop cut)
         self.frames = []
         self.refinements = []     # exact definitions of summarised functions (second-stage queries)
         from . import stubs
@@ -286,6 +287,18 @@ class Engine:
         if isinstance(v, z3.ExprRef):
             return self.ctx_scalar(v, facts, negfacts)
         tv = type(v)
+        if tv is Str:
+            n = 0
+            while v.ite is not None and n < 50:
+                c, a, b = v.ite
+                if self.implied(c, facts):
+                    v = a
+                elif c.get_id() in negfacts or self.refuted(c, facts):
+                    v = b
+                else:
+                    break
+                n += 1
+            return v
         if tv is Slice:
             return Slice(self._ctx_ptr(v.base, facts, negfacts), self.ctx_scalar(v.off, facts, negfacts), self.ctx_scalar(v.len, facts, negfacts), self.ctx_scalar(v.cap, facts, negfacts))
         if tv is Ptr:
@@ -602,6 +615,7 @@ class Engine:
             frame.env[fv["n"]] = b
         frame.in_edges[0] = [(self.guard, -1, [])]
         saved_guard = self.guard
+        kills0 = self.kills
         self.frames.append(frame)
         try:
             self.exec_blocks(frame, fn.rpo, None)
@@ -613,7 +627,11 @@ class Engine:
         if not frame.rets:
             self.guard = FALSE
             return self.zero_results(fn)
-        rg = self.factor_or([g for g, v in frame.rets if not is_false(g)]) if any(not is_false(g) for g, v in frame.rets) else FALSE
+        if self.kills == kills0 and not self.panic_scopes:
+            # every path through the callee returned: the guard after the call is the guard before it
+            rg = saved_guard
+        else:
+            rg = self.factor_or([g for g, v in frame.rets if not is_false(g)]) if any(not is_false(g) for g, v in frame.rets) else FALSE
         res = frame.rets[0][1]
         for g, v in frame.rets[1:]:
             res = ite(g, v, res)
@@ -686,6 +704,7 @@ class Engine:
                     self.stats.setdefault("silent_cuts", []).append("%s#%d after %d iterations" % (fn.name, h, bound))
                 self.guard = saved
                 # paths needing more iterations are cut
+                self.kills += 1
                 self.assume_global(Not(G), "loop %s#%d cut after %d iterations" % (fn.name, h, bound))
                 break
             self.exec_blocks(frame, order, h)
@@ -766,6 +785,7 @@ class Engine:
                 self.exec_instr(frame, b, ins)
         except DeadPath as e:
             self.narrows += 1
+            self.kills += 1
             if self.trace:
                 print("    dead path in %s block %d: %s\n%s" % (fn.name, b, e.why, e.tb), flush=True)
             return
@@ -826,6 +846,7 @@ class Engine:
                         pass
         self.guard = FALSE
         self.narrows += 1
+        self.kills += 1
 
     def op_RunDefers(self, frame, b, ins):
         g0 = self.guard
